@@ -336,6 +336,67 @@ def while_loop_ob(prog):
     return Ob("grad/while_loop", run, "every value produced by lax.while_loop passes through lax.stop_gradient at its call site", "gaussian_toolbox/approximate_conditional.py::HeteroscedasticConditional._get_omega_star", group="grad")
 
 
+# ---------------------------------------------------------------- 7b. gradients are neither blocked nor routed through degenerate decompositions
+GR_SYNTH = '''
+def bad_block(self):
+    return lax.stop_gradient(-0.5 * self.w0 ** 2)
+def bad_eigh(A):
+    w, V = jnp.linalg.eigh(A)
+    return V
+def good(self, p_x, W):
+    return lax.stop_gradient(self._get_omega_star(p_x=p_x, W_i=W))
+'''
+_SPECTRAL = ("eigh", "eig", "eigvalsh", "eigvals", "svd")
+
+
+def _gradient_flow_violations(tree, relpath, qual, variational):
+    """(a) lax.stop_gradient may only wrap the variational parameters of the lower bounds (values produced by the fixed-point /
+    closed-form optimisers named in `variational`): anywhere else it silently removes a term from the gradient of a parameter-dependent
+    value; (b) eigendecompositions / SVD have NaN derivatives at repeated eigenvalues (isotropic covariances) - the library inverts
+    through Cholesky factors."""
+    out, sites = [], 0
+    for n in ast.walk(tree):
+        if not isinstance(n, ast.Call):
+            continue
+        fname = ast.unparse(n.func)
+        if fname.endswith("stop_gradient") and n.args:
+            sites += 1
+            inner = [m for m in ast.walk(n.args[0]) if isinstance(m, ast.Call) and isinstance(m.func, ast.Attribute) and m.func.attr in variational]
+            if not inner:
+                out.append(f"{relpath}:{n.lineno} in {qual(n.lineno)}: `{ast.unparse(n)[:100]}` blocks the gradient of a value that is not a variational "
+                           f"parameter ({', '.join(sorted(variational))}): derivatives with respect to the parameters it depends on lose that term")
+        if isinstance(n.func, ast.Attribute) and n.func.attr in _SPECTRAL and "linalg" in fname:
+            out.append(f"{relpath}:{n.lineno} in {qual(n.lineno)}: `{fname}` has NaN reverse-mode derivatives at repeated eigenvalues / singular values "
+                       "(e.g. isotropic covariances); matrix inverses and log-determinants go through Cholesky factors")
+    return out, sites
+
+
+def gradient_flow_ob(prog):
+    def run():
+        variational = {"_get_omega_star", "_get_omega_dagger"}
+        missing = [v for v in variational if not any(v in ci.methods for ci in prog.classes.values())]
+        if missing:
+            raise Undecided(f"variational-parameter producers {missing} not found (anchor vanished)")
+        t = ast.parse(GR_SYNTH)
+        v1, _ = _gradient_flow_violations(t.body[0], "synthetic", lambda l: "bad", variational)
+        v2, _ = _gradient_flow_violations(t.body[1], "synthetic", lambda l: "bad", variational)
+        v3, _ = _gradient_flow_violations(t.body[2], "synthetic", lambda l: "good", variational)
+        if len(v1) != 1 or len(v2) != 1 or v3:
+            raise Undecided("gradient-flow rule: synthetic positive / negative example mismatch")
+        bad, sites = [], 0
+        for mod, tree in prog.modules.items():
+            b, k = _gradient_flow_violations(tree, prog.relpath(mod), lambda l, mod=mod: prog.qualname_at(mod, l), variational)
+            bad += b
+            sites += k
+        if sites < 2:
+            raise Undecided(f"only {sites} stop_gradient sites found (floor 2)")
+        if bad:
+            raise Refuted("; ".join(bad[:2]), bad[0].split(":")[0] + "::" + bad[0].split(" in ")[1].split(":")[0], bad)
+        return [], dict(stop_gradient_sites=sites)
+    return Ob("grad/flow", run, "lax.stop_gradient wraps only variational parameters; no eigendecomposition / SVD (NaN derivatives at repeated eigenvalues)",
+              "gaussian_toolbox/approximate_conditional.py::HeteroscedasticConditional.get_lb_log_det", group="grad")
+
+
 # ---------------------------------------------------------------- 8. NaN-safe `where` guards (the repository's own double-where idiom)
 def _where_guard_violations(tree, relpath, qual):
     """jnp.where(jnp.isfinite(X), A, B): if X enters A unsanitised (not as where(isfinite(X), X, const)) and is multiplied /
@@ -406,7 +467,7 @@ def where_guard_ob(prog):
 
 def obligations(tier):
     prog = model.load()
-    obs = [api_resolution_ob(prog), while_loop_ob(prog), trace_synthetic_ob(), where_guard_ob(prog)]
+    obs = [api_resolution_ob(prog), while_loop_ob(prog), trace_synthetic_ob(), where_guard_ob(prog), gradient_flow_ob(prog)]
     for cls in dataclasses_of(prog):
         obs.append(closure_ob(prog, cls))
         obs.append(idempotence_ob(prog, cls))
